@@ -225,11 +225,12 @@ func c10ResubmitTypes() (x, y int) {
 }
 
 // c10ResubmitXs: the opening types that take the part of the re-submitted descriptor (first entry: the default).
-var c10ResubmitXs = []int{0x36, 0x34, 0x30, 0x32, 0x40, 0x44, 0x20, 0x22, 0x10, 0x17, 0x19, 0x50}
+var c10ResubmitXs = []int{0x36, 0x34, 0x30, 0x32, 0x40, 0x44, 0x20, 0x22, 0x10, 0x17, 0x19, 0x50, 0x13}
 
 // c10FillerFor returns an opening type y != x that closes neither an open x nor an open y (-1: none).
 func c10FillerFor(x int) int {
-	if !ref.OutTypes[x] {
+	if !ref.OutTypes[x] && x != 0x13 {
+		// (the program breakaway is kept open although it is classed as an in signal)
 		return -1
 	}
 	for _, y := range c10NamedTypes {
@@ -825,7 +826,7 @@ func init() {
 				"distinct-pts", "distinct-pts", 4, 5),
 			&engine.Enum[c10Long]{
 				Name: "long-histories",
-				Rule: "five re-submission patterns (an opening descriptor of each of 12 types, N = 0..15 other signals with other signal times that leave it open [or after it was closed explicitly or by its own end descriptor; or followed by a different descriptor that carries the FIRST one's signal time, and one more filler, so that a record for that time exists which lacks the first object], then the same object again: while its signal time is still on record it must be rejected as a duplicate with the list unchanged; it may never sit in the open list twice; re-opening a descriptor that had been reported closed once its signal time is forgotten is the recorded known finding) and five history patterns (start/end pairs; many chapters closed by one program end; breakaway/resumption cycles with content opened in the blackout; placement opportunities with explicit closes; nested breakaways closed by unscheduled-event and network signals) repeated N = 1..12 (thorough 1..40) times with always-distinct PTS (histories of up to ~360 calls, beyond the 10-slot duplicate ring), each also with the same object processed again after every position; the identity monitor runs after every call." + common,
+				Rule: "five re-submission patterns (a descriptor of each of the 13 types that are kept open - 12 out types and the program breakaway -, N = 0..15 other signals with other signal times that leave it open [or after it was closed explicitly or by its own end descriptor; or followed by a different descriptor that carries the FIRST one's signal time, and one more filler, so that a record for that time exists which lacks the first object], then the same object again: while its signal time is still on record it must be rejected as a duplicate with the list unchanged; it may never sit in the open list twice; re-opening a descriptor that had been reported closed once its signal time is forgotten is the recorded known finding) and five history patterns (start/end pairs; many chapters closed by one program end; breakaway/resumption cycles with content opened in the blackout; placement opportunities with explicit closes; nested breakaways closed by unscheduled-event and network signals) repeated N = 1..12 (thorough 1..40) times with always-distinct PTS (histories of up to ~360 calls, beyond the 10-slot duplicate ring), each also with the same object processed again after every position; the identity monitor runs after every call." + common,
 				Gen: func(r *engine.Run, emit func(c10Long)) {
 					maxN := 12
 					if r.Thorough() {
